@@ -103,6 +103,7 @@ def run_job(job):
             vals.append(PRIMES[len(vals) % len(PRIMES)] + 1000 * (len(vals) // len(PRIMES)))
         vals = [v if rng.random() < 0.7 else -v for v in vals]
         valid, supplied, build = True, [], None
+        mayrefuse = False
         # value type of this case: the supplied integer p is embedded in a value of that type (wrap) and recovered from
         # whatever the accessors return (tag); 'str' values are sympified by the constructor
         vtype = rng.choice(job.get('vtypes') or ['int'])
@@ -163,6 +164,19 @@ def run_job(job):
             gs = sorted({bin(k).count('1') for k in ks} | ({rng.randint(0, d)} if rng.random() < 0.5 else set()))
             supplied = [[digits(n), v] for n, v in zip(kn, vs)]
             build = lambda: alg.multivector(keys=tuple(ks), values=W(vs), grades=tuple(gs))
+        elif form == 'graded_perm':
+            # graded mode: the complete grades, but the keys in ANOTHER order -- the library may refuse this (it does), but
+            # must not build a multivector whose coefficients sit on other blades
+            if not graded or len(ks) < 2:
+                continue
+            order = list(range(len(ks)))
+            while order == sorted(order):
+                rng.shuffle(order)
+            kp, vp = [ks[i] for i in order], [vs[i] for i in order]
+            supplied = [[digits(alg.bin2canon[k]), v] for k, v in zip(kp, vp)]
+            mayrefuse = True
+            build = (lambda: alg.multivector(keys=tuple(kp), values=W(vp))) if rng.random() < 0.5 else \
+                (lambda: alg.multivector(keys=tuple(alg.bin2canon[k] for k in kp), values=W(vp)))
         elif form.startswith('byname'):
             # symbolic multivectors created by name: the coefficient of blade e<digits> is the symbol w<digits>
             vtype = 'symbol'
@@ -219,7 +233,7 @@ def run_job(job):
             build = lambda: alg.multivector(keys=tuple(ks2), values=list(vals[:len(ks2)]))
         else:
             continue
-        ev = {'id': eid, 'kind': 'construct', 'u': u, 'graded': graded, 'form': form, 'valid': valid, 'raised': '', 'vtype': vtype,
+        ev = {'id': eid, 'kind': 'construct', 'u': u, 'graded': graded, 'form': form, 'valid': valid, 'raised': '', 'vtype': vtype, 'mayrefuse': mayrefuse,
               'supplied': supplied, 'items': {'keys': [], 'coefs': []}, 'reads': [], 'contains': [], 'grade': [], 'full': [],
               'mapped': {'keys': [], 'coefs': []}, 'filtered': [0, [], []]}
         try:
